@@ -172,7 +172,12 @@ def oracle(script, impl, check_c10=True, check_c03=True, thr=None):
                 # digest taken before)
                 if i >= len(impl) or not impl[i].startswith("R "): return bad("reply of the command served during the snapshot expected", i)
                 if impl[i] == "R !": return bad("the server panicked", i)
-                i += 1; countable = False
+                kwargv = [bytes.fromhex(h).decode("latin-1") for h in f[2:]]
+                if len(kwargv) == 3 and kwargv[0].upper() == "SET" and impl[i].startswith("R +"):
+                    changes += 1       # a write that is not in the snapshot: it counts towards the next automatic one
+                else:
+                    countable = False
+                i += 1
             continue
         if f[0] == "T":
             if i >= len(impl): return bad("trace ends early", i)
